@@ -57,34 +57,35 @@ def tie(ctx):
             found.append({"case": case, "what": what, "inputs": inputs, "error": 0.0, "tolerance": 0,
                           "obligation": obligation or ("search:" + case)})
     S = cgen.shipped()
-    default_so = {}
-    S = [(sid, ns, {f.name(): f for f in eqs.values()}, gen, opts, len(eqs)) for (sid, ns, eqs, gen, opts) in S]
     inc = os.path.join(os.path.dirname(ca.__file__), "include")
-    for (sid, ns, eqs, gen, opts, nkeys) in S:
-        if len(eqs) != nkeys:
-            report("functions:%s:names" % sid, "two functions of the equation set share one name", {"set": sid})
+    default_so = {}
+    for (sid, parts, gen, opts) in S:
         os.makedirs(os.path.join(work, sid), exist_ok=True)
-        stats["sets"] += 1
-        stats["functions"] += len(eqs)
-        variants = {fn: [] for fn in eqs}     # fn -> [(vid, ir)]
-        body_seen = {fn: {} for fn in eqs}    # fn -> {body text: vid}
-        tables = {}
+        parts = [(ns, {f.name(): f for f in eqs.values()}, cfile, len(eqs)) for (ns, eqs, cfile) in parts]
+        acc = {}
+        for (ns, eqs, cfile, nkeys) in parts:
+            stats["sets"] += 1
+            stats["functions"] += len(eqs)
+            if len(eqs) != nkeys:
+                report("functions:%s:names" % ns, "two functions of the equation set share one name", {"set": ns})
+            acc[ns] = {"variants": {fn: [] for fn in eqs}, "body_seen": {fn: {} for fn in eqs}, "tables": {}}
         for cfg in cgen.configs(opts, ctx.tier, ctx.seed):
             cid = cgen.cfg_id(cfg)
             dest = os.path.join(work, sid, cid.replace("=", "").replace("+", "_")[:120])
             stats["configs_tried"] += 1
             try:
-                files = gen(dest, **cfg)
+                gen(dest, **cfg)
             except Exception as e:   # noqa: BLE001
                 stats["configs_rejected"].append({"set": sid, "config": cid, "error": str(e)[-200:]})
                 report("generate:%s:%s" % (sid, cid), "code generation raises under an accepted option combination: %s" % str(e)[-300:],
                        {"set": sid, "config": cfg})
                 continue
             stats["configs_ok"] += 1
-            for cf in files:
+            for (ns, eqs, cf, _) in parts:
+                A = acc[ns]
                 path = os.path.join(dest, cf)
                 if not os.path.exists(path):
-                    report("generate:%s:%s:nofile" % (sid, cid), "generator did not write " + cf, {"set": sid, "config": cfg}); continue
+                    report("generate:%s:%s:nofile" % (ns, cid), "generator did not write " + cf, {"set": ns, "config": cfg}); continue
                 text = open(path).read()
                 # cpp=True emits C++ (compile as such); include_math=False leaves <math.h> to the user by design
                 lang = ["-x", "c++"] if cfg.get("cpp") else ["-x", "c"]
@@ -93,41 +94,46 @@ def tie(ctx):
                 stats["compiled"] += 1
                 stats["gcc_warnings"] += out.count("warning:")
                 if rc != 0:
-                    report("compile:%s:%s" % (sid, cid), "generated C does not compile: " + out[-300:], {"set": sid, "config": cfg}); continue
+                    report("compile:%s:%s" % (ns, cid), "generated C does not compile: " + out[-300:], {"set": ns, "config": cfg}); continue
+                if opts.get("with_header", True) != cfg.get("with_header", opts.get("with_header", True)) or True:
+                    want_h = cfg.get("with_header", opts.get("with_header", True))
+                    has_h = os.path.exists(path[:-2] + ".h")
+                    if bool(want_h) != has_h:
+                        report("header:%s:%s" % (ns, cid), "header file %s although with_header=%s" % ("written" if has_h else "not written", want_h), {"set": ns, "config": cfg})
                 try:
                     funcs = cparse.parse_c(text)
                 except cparse.ParseError as e:
-                    ctx.fail("cparse:%s:%s" % (sid, cid), "c-outside-modelled-subset", {"msg": str(e)[:300]})
+                    ctx.fail("cparse:%s:%s" % (ns, cid), "c-outside-modelled-subset", {"msg": str(e)[:300]})
                     continue
                 order = funcs.pop("__order__")
-                tables[cid] = [(n, cgen.signature(funcs[n])) for n in order]
+                A["tables"][cid] = [(n, cgen.signature(funcs[n])) for n in order]
                 missing = [fn for fn in eqs if fn not in funcs]
                 extra = [n for n in order if n not in eqs]
                 if missing or extra or len(order) != len(set(order)):
-                    report("functions:%s:%s" % (sid, cid), "entry points of the generated C differ from the equation set: missing %s, extra %s" % (missing, extra),
-                           {"set": sid, "config": cfg})
+                    report("functions:%s:%s" % (ns, cid), "entry points of the generated C differ from the equation set: missing %s, extra %s" % (missing, extra),
+                           {"set": ns, "config": cfg})
                 for fn in eqs:
                     if fn not in funcs:
                         continue
                     b = funcs[fn]["body"]
-                    if b not in body_seen[fn]:
-                        body_seen[fn][b] = len(body_seen[fn])
-                        variants[fn].append((body_seen[fn][b], funcs[fn]))
+                    if b not in A["body_seen"][fn]:
+                        A["body_seen"][fn][b] = len(A["body_seen"][fn])
+                        A["variants"][fn].append((A["body_seen"][fn][b], funcs[fn]))
                         stats["distinct_bodies"] += 1
-            if not cfg:
-                default_so[sid] = (dest, files)
-        src = cgen.emit_set(ns, eqs, variants, tables)
-        p = os.path.join(cgen.LEAN, "GenC", ns + ".lean")
-        if not os.path.exists(p) or open(p).read() != src:
-            open(p, "w").write(src)
-        _STATE.setdefault("variants", {})[ns] = {fn: len(v) for fn, v in variants.items()}
-        # python-level structural comparison (diagnostic; the Lean rfl is the obligation)
-        for fn, f in eqs.items():
-            s_ir = cgen.sx_ir(f)
-            hs = cgen.canon(s_ir)
-            for vid, c_ir in variants[fn]:
-                if cgen.canon(c_ir) != hs or cgen.signature(c_ir) != cgen.signature(s_ir):
-                    ctx.notes.append("structural difference C vs SX: %s.%s variant %d" % (ns, fn, vid))
+                if not cfg:
+                    default_so[ns] = (dest, [cf], eqs)
+        for (ns, eqs, cf, _) in parts:
+            A = acc[ns]
+            src = cgen.emit_set(ns, eqs, A["variants"], A["tables"])
+            p = os.path.join(cgen.LEAN, "GenC", ns + ".lean")
+            if not os.path.exists(p) or open(p).read() != src:
+                open(p, "w").write(src)
+            for fn, f in eqs.items():
+                s_ir = cgen.sx_ir(f)
+                hs = cgen.canon(s_ir)
+                for vid, c_ir in A["variants"][fn]:
+                    if cgen.canon(c_ir) != hs or cgen.signature(c_ir) != cgen.signature(s_ir):
+                        ctx.notes.append("structural difference C vs SX: %s.%s variant %d" % (ns, fn, vid))
     # ---- build the Lean modules now: the driver needs them
     rc, out = _sh(["lake", "build"] + LEAN_TARGETS, cwd=cgen.LEAN)
     lean_ok = rc == 0
@@ -135,11 +141,12 @@ def tie(ctx):
     # ---- four-way differential execution on the default configuration
     lines, index = [], []
     cres = {}
-    for (sid, ns, eqs, gen, opts, nkeys) in S:
-        if sid not in default_so:
+    for ns in SETS:
+        if ns not in default_so:
             continue
-        dest, files = default_so[sid]
-        so = os.path.join(dest, "lib.so")
+        dest, files, eqs = default_so[ns]
+        sid = ns
+        so = os.path.join(dest, "lib_%s.so" % ns)
         rc, out = _sh(["gcc", "-O1", "-ffp-contract=off", "-fPIC", "-shared", "-I", inc, "-o", so] + [os.path.join(dest, f) for f in files] + ["-lm"])
         if rc != 0:
             report("compile:%s:so" % sid, "generated C does not link into a shared object: " + out[-300:], {"set": sid}); continue
